@@ -177,3 +177,15 @@ Proof.
   split; [eexists; vm_compute; reflexivity|].
   vm_compute. auto.
 Qed.
+
+Lemma attached_not_conversely_x :
+  exists d : doc,
+    (forall t, In t (fst d) -> is_sets_kw (Some (upper_with [] (t_text t))) = false)
+    /\ (exists ns, snd (yff Nexus d) = Ok ns)
+    /\ length (fst (yff Nexus d)) = 2%nat
+    /\ tl_get Nexus d = Err ParseErr
+    /\ is_ok (ds_get Nexus false d) = true.
+Proof.
+  destruct attached_not_conversely_l as [d [A B]]. exists d. split; [|exact B].
+  apply no_sets_b_ok in A. unfold NoSets in A. rewrite Forall_forall in A. exact A.
+Qed.
